@@ -415,6 +415,9 @@ func C06(p *engine.Prog, r *engine.Report) {
 		}
 	}
 	r.Floor("C06-R5", 4, "2 digests x (nonce, epoch)")
+	// ---------------- R6: no transaction enters the chain unapplied
+	processTxsExhaustiveRule(p, r, "C06-R6")
+	r.Floor("C06-R6", 1, "processTxs")
 }
 
 func okNonceSource(v ssa.Value, isAccNonce, isAccEpoch, isGlobalEpoch func(ssa.Value) bool) bool {
